@@ -15,6 +15,7 @@ MOD = 'github.com/TheCacophonyProject/thermal-recorder'
 profiles = []
 R = os.path.join(work, 'repo')
 subprocess.run(['rsync', '-a', '--exclude', '.git', REPO + '/', R + '/'], check=True)
+STREAMS = {k: v for k, v in STREAMS.items() if not any(d.startswith('@mod:') for d in (v.get('overlay') or {}))}  # module-cache overlays cannot be materialised in a copy
 for st in STREAMS.values():
     for d, s in (st.get('overlay') or {}).items():
         shutil.copy(os.path.join(V, 'overlay', s), os.path.join(R, d))
